@@ -1,34 +1,45 @@
-"""vf2 discharge: SMT-LIB text to a process pool; portfolio z3-ematch / z3-default / cvc5; counter-model search."""
-import multiprocessing as mp, subprocess, tempfile, os, time
+"""vf discharge: SMT-LIB text to a process pool; portfolio z3 (E-matching config) -> cvc5 -> z3 default.
+Budgets are resource limits (deterministic), wall-clock limits are only a generous backstop."""
+import multiprocessing as mp, subprocess, tempfile, os, time, re
 import z3
 Z3_CONFIGS = [("z3-ematch", {"smt.mbqi": False, "smt.auto_config": False}), ("z3-default", {})]
 
-def _z3(smt, opts, rlimit, timeout_ms, want_model=False):
+def _z3(smt, opts, rlimit, timeout_ms):
     s = z3.Solver(); s.set("timeout", timeout_ms); s.set("rlimit", rlimit)
     for k, v in opts.items(): s.set(k, v)
     s.from_string(smt); r = s.check()
     return str(r)
-def _cvc5(smt, timeout_ms):
+def _cvc5(smt, timeout_ms, rlimit=None):
     f = tempfile.NamedTemporaryFile("w", suffix=".smt2", delete=False); f.write("(set-logic ALL)\n" + smt); f.close()
     try:
-        out = subprocess.run(["cvc5", f"--tlimit={timeout_ms}", f.name], capture_output=True, text=True).stdout.strip()
+        cmd = ["/usr/bin/cvc5", f"--tlimit={timeout_ms}"] + ([f"--rlimit={rlimit}"] if rlimit else []) + [f.name]
+        out = subprocess.run(cmd, capture_output=True, text=True).stdout.strip()
+    except Exception: out = "unknown"
     finally: os.unlink(f.name)
     return out if out in ("sat", "unsat") else "unknown"
 def work(job):
-    name, smt, rlimit, timeout_ms, use_cvc5 = job; t0 = time.time()
-    for cname, opts in Z3_CONFIGS[:1]:
-        if _z3(smt, opts, rlimit, timeout_ms) == "unsat": return name, "proved", cname, time.time() - t0
-    if use_cvc5 and _cvc5(smt, min(timeout_ms, 20000)) == "unsat": return name, "proved", "cvc5", time.time() - t0
-    r = _z3(smt, Z3_CONFIGS[1][1], rlimit, timeout_ms)
-    if r == "unsat": return name, "proved", "z3-default", time.time() - t0
-    if r == "sat": return name, "refuted", "z3-default", time.time() - t0
-    return name, "unknown", None, time.time() - t0
+    name, smt, rlimit, timeout_ms, use_cvc5, both = job; t0 = time.time()
+    status, backend, second = "unknown", None, None
+    if _z3(smt, Z3_CONFIGS[0][1], rlimit, timeout_ms) == "unsat": status, backend = "proved", "z3-ematch"
+    if both or (status != "proved" and use_cvc5):
+        r = _cvc5(smt, min(timeout_ms, 30000)); second = r
+        if status != "proved" and r == "unsat": status, backend = "proved", "cvc5"
+    if status != "proved":
+        r = _z3(smt, Z3_CONFIGS[1][1], rlimit, timeout_ms)
+        if r == "unsat": status, backend = "proved", "z3-default"
+        elif r == "sat": status, backend = "refuted", "z3-default"
+    return name, status, backend, time.time() - t0, second
 
-def discharge_all(obs, rlimit=20_000_000, timeout_ms=60_000, procs=16, use_cvc5=True):
-    jobs = [(o.name + f"#{i}", o.smt2(), (rlimit // 20 if o.kind == "canary" else rlimit), (3000 if o.kind == "canary" else timeout_ms), use_cvc5 and o.kind != "canary") for i, o in enumerate(obs)]
+def discharge_all(obs, rlimit=40_000_000, timeout_ms=120_000, procs=16, use_cvc5=True, thorough=False, short=()):
+    jobs = []
+    for i, o in enumerate(obs):
+        quick = o.kind == "canary" or any(re.search(p, o.name) for p in short)
+        jobs.append((o.name + f"#{i}", o.smt2(), (rlimit // 20 if quick else rlimit), (3000 if o.kind == "canary" else (8000 if quick else timeout_ms)),
+                     use_cvc5 and not quick, thorough and o.kind != "canary"))
+    if not jobs: return obs
     with mp.Pool(min(procs, max(1, len(jobs)))) as p: res = p.map(work, jobs, chunksize=1)
-    for o, (nm, status, backend, secs) in zip(obs, res):
-        o.status, o.backend, o.secs = status, backend, secs
+    for o, (nm, status, backend, secs, second) in zip(obs, res):
+        o.status, o.backend, o.secs, o.second = status, backend, secs, second
     return obs
 
 def ok(o):
